@@ -12,16 +12,21 @@ import (
 // Shared harness building blocks: test doubles for caller-supplied components
 // and helpers to construct states directly.
 
-// vhSetThreshold sets the slab-size globals the way setThreshold does, with
-// integer arithmetic only (equivalence with the real, float-using setThreshold
-// for every legal T is lemma VH_L_Threshold).
+// vhSetThreshold sets the slab-size globals through the library's own
+// setThreshold (so that a change to the derived limits in settings.go is seen by
+// every harness). Its float computation float64(T)*1.5 is concrete for concrete
+// T and summarised as T+T/2 by the engine for symbolic T (lemma VH_L_CeilDiv
+// family; exactness is discharged in the C05 lemma harness).
 func vhSetThreshold(T uint32) {
-	targetThreshold = T
-	minThreshold = T / 2
-	maxThreshold = T + T/2
-	maxInlineArrayElementSize = (T - arrayDataSlabPrefixSize) / minElementCountInSlab
-	maxInlineMapElementSize = (T-mapDataSlabPrefixSize-hkeyElementsPrefixSize)/minElementCountInSlab - digestSize
-	maxInlineMapKeySize = (maxInlineMapElementSize - singleElementPrefixSize) / 2
+	setThreshold(T)
+}
+
+// vhSetThresholdSym: the same for a SYMBOLIC slab size. setThreshold's float
+// computation uint32(float64(T)*1.5) is summarised by the engine as T+T/2
+// (lemma L-mul1.5, discharged with exact IEEE-754 semantics for every legal T
+// by VH_C05_Thresholds); its overflow guard folds by interval reasoning.
+func vhSetThresholdSym(T uint32) {
+	setThreshold(T)
 }
 
 func vhAddr(b byte) Address { return Address{0, 0, 0, 0, 0, 0, 0, b} }
@@ -74,6 +79,8 @@ func vhThreshold() {
 	T := uint32(256)
 	if vhParam("symT", 0) == 1 {
 		T = vhRange32("T", 256, 32768)
+		vhSetThresholdSym(T)
+		return
 	}
 	vhSetThreshold(T)
 }
